@@ -190,6 +190,13 @@ def option_sets(sc, f, nlines, commits):
         sets.append(["--ignore-revs-file", revs])
         if nlines >= 2:
             sets.append(["-L", "%d,%d" % (1, max(1, nlines // 2)), "--ignore-rev", c])
+        # a date cut-off just after one of the older commits: that commit becomes git's boundary commit (lines of everything older are
+        # pinned on it), while the lines it added itself are still its own - and AI exactly when its note lists them
+        import datetime
+        cb = rng.choice(commits[:-1])
+        ct = int(sc.w.ogit("log", "-1", "--format=%ct", cb).strip())
+        iso = datetime.datetime.fromtimestamp(ct + 1, datetime.timezone.utc).strftime("%Y-%m-%dT%H:%M:%SZ")
+        sets.append(["--since", iso])
     return sets
 
 
